@@ -55,11 +55,25 @@ func (g *G) setOpOrSelect(sub bool) ([]Tok, ast.Statement) {
 	g.use("set_operation")
 	n := 1 + g.intn(3, "nsetop")
 	t, first := g.Select(true, false)
-	var cur ast.Statement = first
+	// INTERSECT binds tighter than UNION / EXCEPT (SQL-92 7.10): the chain is a left-associative
+	// sequence of UNION / EXCEPT over terms, each term a left-associative INTERSECT chain. Without
+	// Features.IntersectPrecedence an INTERSECT is only drawn while no UNION / EXCEPT has been,
+	// where both readings give the same tree (the listed finding C03-intersect-precedence).
+	var cur ast.Statement       // the UNION / EXCEPT chain so far (nil while the first term is being built)
+	var term ast.Statement = first // the INTERSECT chain being built
+	var pendOp string
+	var pendAll bool
 	intersectOK := true
+	closeTerm := func() {
+		if cur == nil {
+			cur = term
+		} else {
+			cur = &ast.SetOperation{Left: cur, Operator: pendOp, All: pendAll, Right: term}
+		}
+	}
 	for i := 0; i < n; i++ {
 		ops := []string{"UNION", "EXCEPT"}
-		if intersectOK {
+		if intersectOK || g.F.IntersectPrecedence {
 			ops = append(ops, "INTERSECT")
 		}
 		op := rapid.SampledFrom(ops).Draw(g.T, "setopkind")
@@ -74,8 +88,17 @@ func (g *G) setOpOrSelect(sub bool) ([]Tok, ast.Statement) {
 		}
 		rt, rn := g.Select(true, false)
 		t = cat(t, rt)
-		cur = &ast.SetOperation{Left: cur, Operator: sp, All: all, Right: rn}
+		if op == "INTERSECT" {
+			if cur != nil {
+				g.use("intersect_after_union_or_except")
+			}
+			term = &ast.SetOperation{Left: term, Operator: sp, All: all, Right: rn}
+			continue
+		}
+		closeTerm()
+		pendOp, pendAll, term = sp, all, rn
 	}
+	closeTerm()
 	if n >= 2 {
 		g.use("set_operation_chain")
 	}
